@@ -356,6 +356,12 @@ def C09_6(ctx, facts):
     ctx.assume("E-PANIC accept path (%s): %s" % (ctx.cur_config, st))
 
 
+def C09_7(ctx, facts):
+    """Truncated protocol bytes: a connection that sends part of the HTTP/2 preface and closes must not leave a task spinning."""
+    import c08
+    c08.sniff_loop_progress(ctx, facts)
+
+
 RULES = [
     ("C09.1", C09_1, ["default", "tls"]),
     ("C09.2", C09_2, ["default"]),
@@ -363,4 +369,5 @@ RULES = [
     ("C09.4", C09_4, ["default"]),
     ("C09.5", C09_5, ["default", "tls"]),
     ("C09.6", C09_6, ["default", "tls"]),
+    ("C09.7", C09_7, ["default"]),
 ]
